@@ -57,7 +57,7 @@ def applicable_again_tasks(tier: str, seed: int, cap=None) -> List[dict]:
         if not any(k in text_pre for k in ("(f ", "(g)", "(h ")):
             continue
         seen += 1
-        if tier == "quick" and seen % 4:
+        if seen % 4:
             continue
         params = G.PARAM_LISTS[pl]
         text = G.domain_text([("act", params, pre, ["and"])], const=const)
